@@ -11,7 +11,7 @@ if [ -d "$WT" ]; then
   echo "tests with change: $T"
 fi
 SCR="$(mktemp -d /tmp/neutral.XXXXXX)"; trap 'rm -rf "$SCR"' EXIT
-mkdir -p "$SCR/tree"; cp -r /repo/annet "$SCR/tree/annet"
+mkdir -p "$SCR/tree"; rsync -a --exclude .git --exclude __pycache__ /repo/ "$SCR/tree/"
 ( cd "$SCR/tree" && patch -p1 -s < "$P" ) || { echo "patch failed"; exit 2; }
 find "$SCR/tree" -name __pycache__ -prune -exec rm -rf {} + 2>/dev/null
 rc=0
